@@ -47,8 +47,6 @@ func VerifConsts() map[string]int {
 	}
 }
 
-func VerifDecodeFormat0(raw uint) (Version, Level, bool) { return decodeFormat0(raw) }
-func VerifDecodeFormat(img *bitmap.Image) (Version, Level, error) { return decodeFormat(img) }
 func VerifCalcVersion(level Level, p Priority, segs []Segment) (Version, bool) {
 	return calcVersion(level, p, segs)
 }
